@@ -156,12 +156,24 @@ def run(tier, seed):
             except OSError:
                 pass
         name_literals = sorted(name_literals)
+        # extensions the generator's file handling mentions (`with_extension("tmp")`, `"…​.bak"`) plus the classic names of temporary / backup files:
+        # a leftover sibling `<stem>.<ext>` of a generated file, next to a stale version of that file, is a starting state an interrupted run or
+        # an editor produces
+        ext_literals = {"tmp", "bak", "orig", "new", "part", "swp", "rs~", "old"}
+        for src_ in [os.path.join(REPO, "wow_message_parser/src/main.rs")] + sorted(
+                os.path.join(dp_, f_) for dp_, _, fn_ in os.walk(os.path.join(REPO, "wow_message_parser/src/file_utils")) for f_ in fn_ if f_.endswith(".rs")):
+            try:
+                for m_ in re.finditer(r'(?:with_extension|set_extension)\(\s*"([A-Za-z0-9_~]{1,8})"', open(src_).read()):
+                    ext_literals.add(m_.group(1))
+            except OSError:
+                pass
+        ext_literals = sorted(ext_literals)
         dict_names = []
         for lit in name_literals:
             stem, ext_ = os.path.splitext(lit)
             dict_names += [(f"zzz_stale_{lit}", ext_), (f"{stem}_zzz_stale{ext_}", ext_), (f"zzz_{stem}_stale{ext_}", ext_)]
         # minimised past failures run first
-        CORPUS = [[("extra-dict", None)],
+        CORPUS = [[("extra-dict", None)], [("stale+siblings", None)],
                   [("extra", "wowm_language/src/docs")], [("delete", "wow_message_parser/tests/wireshark/parser.txt")],
                   [("delete", "wow_world_messages/src/helper/vanilla/update_mask/impls.rs"), ("delete", "wow_world_messages/src/helper/tbc/opcode_to_name.rs")],
                   [("delete", "intermediate_representation.json"), ("extra", "wow_world_base/src/inner")]]
@@ -173,6 +185,23 @@ def run(tier, seed):
             for kind, forced in plan:
                 f = forced if (forced and kind != "extra") else rng.choice(gen)
                 path = os.path.join(SCRATCH, f)
+                if kind == "stale+siblings":
+                    # in every swept directory: one generated file cut short, with one leftover sibling per extension next to it
+                    for d_ in SWEPT:
+                        cands_ = sorted(x for x in gen if x.startswith(d_ + "/") and x.endswith(".rs") and not x.endswith("mod.rs"))
+                        if not cands_:
+                            continue
+                        f_ = cands_[rng.below(len(cands_))]
+                        p_ = os.path.join(SCRATCH, f_)
+                        data_ = open(p_, "rb").read()
+                        open(p_, "wb").write(data_[:len(data_) // 3])
+                        ops.append(("truncate-to-a-third", f_))
+                        for e_ in ext_literals:
+                            q_ = os.path.splitext(p_)[0] + "." + e_
+                            open(q_, "w").write("// leftover of an interrupted run\n")
+                            ops.append(("extra", os.path.relpath(q_, SCRATCH)))
+                        kinds["stale+siblings"] += 1
+                    continue
                 if kind == "extra-dict":
                     # one stale file per (dictionary name, swept directory with files of that extension): all in ONE run
                     for nm_, ext_ in dict_names:
